@@ -31,9 +31,40 @@ def near_capacity_case(rng):
     return ";".join(ops), dict(dist=["near_capacity"], defined={}, threaded=False)
 
 
+I64MAX = 2**63 - 1
+SIG_HUGE_GAP = "wr-fsr-huge-gap-fill-never-returns"
+
+
+def extreme_id_case(rng):
+    """sample ids at the ends of int64: every sum / difference the writer forms with them must stay defined (UBSan) and every call must
+    come back (a rejected call is fine)"""
+    dt = rng.choice(["u8", "f32", "u1", "i16"])
+    ops = ["wopen", "src 1 e e e e e", proglib.sigdef_op(3, 1, dt)]
+    base = rng.choice([I64MAX - 7, I64MAX - 16, I64MAX - 40000, -I64MAX - 1, -I64MAX + 5])
+    ops.append("fsr 3 %d %d 0 0" % (base, rng.choice([1, 8, 16])))
+    ops.append("fsr 3 %d %d 0 0" % (base + rng.choice([0, 4, 8, 16]), rng.choice([8, 16, 100])))
+    if rng.random() < 0.5:
+        ops.append("fsr 3 %d 8 0 0" % (base - rng.choice([1, 100])))
+    ops += ["wclose", "ropen", "len 3", "rd 3 0 8", "rclose"]
+    return ";".join(ops), dict(dist=["extreme_sample_id"], defined={3: (dt, False)}, threaded=False)
+
+
+def huge_gap_case(rng):
+    """a jump of the sample id by 2^40 .. 2^62: the writer fills the gap sample by sample (recorded known finding: the call does not
+    return in any reasonable time and no error code limits the gap)"""
+    ops = ["wopen", "src 1 e e e e e", proglib.sigdef_op(3, 1, rng.choice(["u1", "u8"])), "fsr 3 0 8 0 0",
+           "fsr 3 %d 8 0 0" % rng.choice([2**40, 2**50, 2**62]), "wclose"]
+    return ";".join(ops), dict(dist=["huge_gap"], defined={}, threaded=False, huge_gap=True)
+
+
 def gen_case(rng, tier):
-    if rng.random() < 0.03:
+    r0 = rng.random()
+    if r0 < 0.03:
         return near_capacity_case(rng)
+    if r0 < 0.06:
+        return extreme_id_case(rng)
+    if r0 < 0.065:
+        return huge_gap_case(rng)
     threaded = rng.random() < 0.25
     ops = ["topen" if threaded else "wopen"]
     defined = {}
@@ -114,6 +145,8 @@ def gen_case(rng, tier):
 
 
 def classify(script, meta, mism):
+    if meta.get("huge_gap") and any("TIMEOUT" in (str(x.get("why", "")) + str(x.get("impl", ""))) for x in mism):
+        return SIG_HUGE_GAP
     return None
 
 
@@ -122,7 +155,7 @@ def run(ctx):
         ctx, PROP_FILES, gen_case, (), 400, 4000,
         "case = call sequence of 3..30 writer calls (sync or threaded writer) and 3..25 reader calls over the public API with ids from {0, defined, undefined, 255, 256, "
         "300, 65535}, definition parameters from {0,1,9,10,11,...,2^31,UINT32_MAX}, invalid type codes, windows/increments/lengths from {0,1,-1,2^40,+-2^62}, "
-        "NULL/empty/long strings, optional missing close and jls_copy; 3 % of the cases write payloads whose on-disk size straddles the reader's 1 MiB buffer capacity and read them back; run on the ASan+UBSan+LSan build with exactly sized caller buffers in a forked child with a "
+        "NULL/empty/long strings, optional missing close and jls_copy; 3 % of the cases use sample ids at the ends of int64, 0.5 % a sample-id jump of 2^40..2^62 (recorded known finding), 3 % of the cases write payloads whose on-disk size straddles the reader's 1 MiB buffer capacity and read them back; run on the ASan+UBSan+LSan build with exactly sized caller buffers in a forked child with a "
         "20 s watchdog; oracle: no sanitizer report, signal, or time-out (every misuse must come back as an error code); distinct = script",
         classify=classify, variant="asan", exact=True, timeout=20,
         note="memory safety of the C itself is established only for the sequences run (sanitizers), not proved; libc, allocator-failure paths and uninstrumented intra-object overflows are not covered")
